@@ -716,4 +716,177 @@ theorem step_inlineUnsubscribe_holds (k : Nat) (p cid : Str) (s : Server) (id : 
   · exact h
   · exact h.of_surv ((Surv.refl k s).upd rfl) rfl
 
+/-! ### housekeeping -/
+
+theorem unsubscribeClient_clients_sv (s : Server) (i : Nat) : (unsubscribeClient s i).clients = s.clients := by
+  unfold unsubscribeClient
+  extract_lets +onlyGivenNames c s1
+  split
+  · rfl
+  · refine foldl_inv (fun (x : Server) => x.clients = s.clients) _ _ _ rfl ?_
+    intro b a h
+    exact h
+
+theorem tickClients_holds (k : Nat) (p cid : Str) (s : Server) (t : Int) (i : Nat) (hw : WF s)
+    (h : HoldsAt s cid k p i) (hne : ¬ EndsDue s cid t) : HoldsAt (tickClients s t).1 cid k p i := by
+  have hdue : sessionDue s.caps (getObj s i) t = false := by
+    refine Bool.eq_false_iff.mpr (fun e => hne ?_)
+    unfold EndsDue
+    rw [h.1]; exact e
+  have hidi := h.id hw
+  have key : (fun (acc : Server × List Out) =>
+      assocGet acc.1.clients cid = some i ∧ getObj acc.1 i = getObj s i ∧ acc.1.caps = s.caps)
+      (tickClients s t) := by
+    unfold tickClients
+    refine foldl_inv_mem (fun (acc : Server × List Out) =>
+      assocGet acc.1.clients cid = some i ∧ getObj acc.1 i = getObj s i ∧ acc.1.caps = s.caps) _ _ _ ⟨h.1, rfl, rfl⟩ ?_
+    intro acc e he hP
+    obtain ⟨h1, h2, h3⟩ := hP
+    extract_lets +onlyGivenNames c
+    have hreg : assocGet s.clients e.1 = some e.2 := assocGet_of_mem_nodup _ _ _ hw.clients_nodup he
+    have hide : (getObj s e.2).id = e.1 := (hw.clients_valid e.1 e.2 he).2
+    by_cases hk : e.1 = cid
+    · have hei : e.2 = i := by
+        rw [hk, h.1] at hreg; cases hreg; rfl
+      have : sessionDue acc.1.caps c t = false := by
+        show sessionDue acc.1.caps (getObj acc.1 e.2) t = false
+        rw [hei, h2, h3]; exact hdue
+      rw [this]
+      exact ⟨h1, h2, h3⟩
+    · have hei : i ≠ e.2 := by
+        intro x
+        apply hk
+        rw [← hide, ← x]; exact hidi
+      split
+      · extract_lets +onlyGivenNames s1 s2
+        refine ⟨?_, ?_, ?_⟩
+        · show assocGet (assocDel s2.clients e.1) cid = some i
+          rw [assocGet_assocDel_ne _ _ _ (fun x => hk x.symm)]
+          show assocGet (unsubscribeClient (clearInflights acc.1 e.2) e.2).clients cid = some i
+          rw [unsubscribeClient_clients_sv]
+          exact h1
+        · show getObj (unsubscribeClient (clearInflights acc.1 e.2) e.2) i = getObj s i
+          rw [cleanup_getObj_ne acc.1 e.2 i hei]; exact h2
+        · show (unsubscribeClient (clearInflights acc.1 e.2) e.2).caps = s.caps
+          rw [unsubscribeClient_caps]; exact h3
+      · exact ⟨h1, h2, h3⟩
+  obtain ⟨h1, h2, _⟩ := key
+  exact ⟨h1, by rw [h2]; exact h.2⟩
+
+theorem tickRetained_objs (s : Server) (t : Int) : (tickRetained s t).objs = s.objs := by
+  unfold tickRetained
+  show (tickRetained.tickRetainedLoop s t).objs = s.objs
+  unfold tickRetained.tickRetainedLoop
+  refine foldl_inv (fun (x : Server) => x.objs = s.objs) _ _ _ rfl ?_
+  intro b e hb
+  extract_lets +onlyGivenNames pk expired enforced
+  split
+  · exact hb
+  · exact hb
+
+theorem tickWills_sv (k : Nat) (s : Server) (dt : Int) : Surv k s (tickWills s dt).1 := by
+  unfold tickWills
+  refine foldl_inv (fun (acc : Server × List Out) => Surv k s acc.1) _ _ _ (Surv.refl k s) ?_
+  intro acc e h
+  split
+  · split
+    rename_i s1 o h1
+    have g1 : Surv k s s1 := by
+      have := publishToSubscribers_surv k acc.1 e.2
+      rw [h1] at this
+      exact h.trans this
+    split
+    rename_i s2 o2 h2
+    have g2 : Surv k s s2 := by
+      split at h2
+      · rename_i i _
+        extract_lets +onlyGivenNames s3 at h2
+        rw [← (Prod.mk.inj h2).1]
+        have g3 : Surv k s s3 := by
+          show Surv k s (if e.2.retain = true then retainMsg s1 e.2 else s1)
+          split
+          · exact g1.trans (retainMsg_surv k s1 e.2)
+          · exact g1
+        exact g3.trans (same_setObj_sv k s3 i _ (by rk_rfl))
+      · cases h2; exact g1
+    exact g2.upd rfl
+  · exact h
+
+/-- the `inflight` housekeeping removes the expired records — every other record stays what it is -/
+theorem tickInflight_holds (k : Nat) (p cid : Str) (s : Server) (t : Int) (i : Nat) (hw : WF s)
+    (h : HoldsAt s cid k p i) (hne : ¬ EndsExpired s cid k t) : HoldsAt (tickInflight s t) cid k p i := by
+  have hcl := (tickInflight_quiet s t).clients
+  refine ⟨by rw [hcl]; exact h.1, ?_⟩
+  obtain ⟨m0, hm0, hok⟩ := h.2
+  have hexp : recExpired s.caps m0 t = false := by
+    refine Bool.eq_false_iff.mpr (fun e => hne ?_)
+    unfold EndsExpired
+    rw [h.1]
+    show (match flGet (getObj s i) k with | some m => recExpired s.caps m t = true | none => False)
+    rw [hm0]; exact e
+  have key : (fun (x : Server) => x.caps = s.caps ∧ flGet (getObj x i) k = some m0 ∧ ObjWF (getObj x i))
+      (tickInflight s t) := by
+    unfold tickInflight
+    refine foldl_inv (fun (x : Server) => x.caps = s.caps ∧ flGet (getObj x i) k = some m0 ∧ ObjWF (getObj x i))
+      _ _ _ ⟨rfl, hm0, hw.allWF i⟩ ?_
+    intro b e hb
+    extract_lets +onlyGivenNames c
+    refine foldl_inv_mem (fun (x : Server) => x.caps = s.caps ∧ flGet (getObj x i) k = some m0 ∧ ObjWF (getObj x i))
+      _ _ _ hb ?_
+    intro b2 m hm hb2
+    obtain ⟨q1, q2, q3⟩ := hb2
+    extract_lets +onlyGivenNames expired enforced
+    by_cases hx : (expired || enforced) = true
+    · rw [if_pos hx]
+      split
+      rename_i c' ok heq
+      extract_lets +onlyGivenNames s1
+      have goal1 : s1.caps = s.caps ∧ flGet (getObj s1 i) k = some m0 ∧ ObjWF (getObj s1 i) := by
+        refine ⟨q1, ?_⟩
+        by_cases hei : e.2 = i
+        · have hmk : m.id ≠ k := by
+            intro emk
+            have hmem : m ∈ (getObj b i).inflight := by rw [← hei]; exact hm
+            have := flGet_of_mem (getObj b i) m hb.2.2.ids_nodup hmem
+            rw [emk, hb.2.1] at this
+            cases this
+            have : recExpired s.caps m0 t = true := by
+              have hx' : (expired || enforced) = true := hx
+              simp only [expired, enforced, q1] at hx'
+              exact hx'
+            rw [hexp] at this; cases this
+          have hc' : c' = (flDelete (getObj b2 i) m.id).1 := by
+            rw [hei] at heq; rw [heq]
+          show flGet (getObj (setObj b2 e.2 c') i) k = some m0 ∧ ObjWF (getObj (setObj b2 e.2 c') i)
+          rw [hei]
+          rcases getObj_setObj_self_cases b2 i c' with e' | e' <;> rw [e']
+          · rw [hc', flGet_flDelete_ne _ _ _ hmk]
+            exact ⟨q2, flDelete_wf _ _ q3⟩
+          · exact ⟨q2, q3⟩
+        · show flGet (getObj (setObj b2 e.2 c') i) k = some m0 ∧ ObjWF (getObj (setObj b2 e.2 c') i)
+          rw [getObj_setObj_ne b2 e.2 i c' (fun x => hei x.symm)]
+          exact ⟨q2, q3⟩
+      split
+      · exact goal1
+      · exact goal1
+    · rw [if_neg hx]
+      exact ⟨q1, q2, q3⟩
+  exact ⟨m0, key.2.1, hok⟩
+
+theorem step_tick_holds (k : Nat) (p cid : Str) (s : Server) (kind : String) (t : Int) (i : Nat) (hw : WF s)
+    (h : HoldsAt s cid k p i) (hne : ¬ Ends s cid k (.tick kind t)) :
+    HoldsAt (step s (.tick kind t)).1 cid k p i := by
+  rw [step]
+  split
+  · rename_i hk
+    exact tickClients_holds k p cid s t i hw h (fun e => hne (Or.inl ⟨by simpa using hk, e⟩))
+  · split
+    · exact h.of_surv ((Surv.refl k s).upd (tickRetained_objs s t)) (tickRetained_quiet s t).clients
+    · split
+      · rename_i hk
+        exact tickInflight_holds k p cid s t i hw h (fun e => hne (Or.inr ⟨by simpa using hk, e⟩))
+      · split
+        · exact h.of_surv (tickWills_sv k s t) (tickWills_quiet s t).clients
+        · exact h
+
 end Mochi.Broker
